@@ -6,7 +6,9 @@
   The cryptographic primitives are PARAMETERS (`Prims`): the KDF (scrypt / PBKDF2), Keccak-256 (`H`), the AES-128-CTR
   keystream, raw AES-128-CBC decryption, and scalar -> address (secp256k1 + Keccak).  Nothing below depends on what
   they compute.  Failures the Go code has are explicit outcomes: `err e` (an `error` is returned) and `panic`
-  (a run-time panic: failed type assertion, slice out of capacity, bad IV length, a panic inside the KDF).
+  (a run-time panic).  Since a73be14 / e55659c the code validates the KDF parameters and the IV and compares the decrypted
+  key with the file's "address"; the only panics left in the modelled expressions are a panic inside the KDF call itself
+  and `derivedKey[16:32]` on a buffer of capacity < 32 (neither happens for scrypt / PBKDF2 with positive parameters).
 
   JSON: the model starts from what `encoding/json` delivers (the three `json.Unmarshal` calls of DecryptKey):
   `KeyFile.jsonOk/verTop/v1ok/v3ok` + the string fields + `kdfparams` as the `map[string]interface{}` content.
@@ -20,6 +22,9 @@ open Aqv
 
 inductive Err
   | json | version | cipher | hexMac | hexIv | hexCt | hexSalt | kdf | prf | unsupportedKdf | decrypt | mismatch
+  | kdfParams      -- "invalid KDF params: ..." / "invalid scrypt params: ..." (missing, wrongly typed or non-positive entry)
+  | ivLength       -- "invalid IV length" / "invalid IV or ciphertext length"
+  | corrupted      -- "key file corrupted: decrypted key has address X, file says Y"
   deriving DecidableEq, Repr
 
 inductive Res (α : Type)
@@ -106,7 +111,7 @@ structure KeyFile where
   v1ok : Bool              -- json.Unmarshal into encryptedKeyJSONV1 succeeded
   v3ok : Bool              -- json.Unmarshal into encryptedKeyJSONV3 succeeded
   version3 : Int           -- encryptedKeyJSONV3.Version
-  address : Bytes          -- "address" (not read by DecryptKey)
+  address : Bytes          -- "address" of the struct DecryptKey dispatched to ("" when absent)
   id : Bytes
   crypto : Crypto
   deriving DecidableEq, Repr
@@ -148,12 +153,12 @@ def lookup (kp : List (Bytes × JVal)) (k : Bytes) : Option JVal :=
   | [] => none
   | (k', v) :: r => if k' = k then some v else lookup r k
 
-/-- `x.(string)`; `none` = the type assertion panics. -/
+/-- `x.(string)` with the comma-ok form; `none` = not a string. -/
 def asString : Option JVal → Option Bytes
   | some (.str s) => some s
   | _ => none
 
-/-- `ensureInt(x)`; `none` = `x.(float64)` panics. -/
+/-- `ensureInt(x)`; `none` = not a number (an error since e55659c). -/
 def ensureInt : Option JVal → Option Int
   | some (.num i) => some i
   | _ => none
@@ -163,33 +168,36 @@ def kdfRes : KdfRes → Res (Bytes × Nat)
   | .err => .err .kdf
   | .panic => .panic
 
-/-- keystore_passphrase.go getKDFKey. -/
+/-- keystore_passphrase.go getKDFKey (e55659c: every entry is type-checked, dklen / r / p must be positive). -/
 def getKDFKey (P : Prims) (c : Crypto) (auth : Bytes) : Res (Bytes × Nat) :=
   match asString (lookup c.kdfparams (ascii "salt")) with
-  | none => .panic
+  | none => .err .kdfParams
   | some saltHex =>
     match hexDecode saltHex with
     | none => .err .hexSalt
     | some salt =>
       match ensureInt (lookup c.kdfparams (ascii "dklen")) with
-      | none => .panic
+      | none => .err .kdfParams
       | some dkLen =>
-        if c.kdf = ascii "scrypt" then
+        if dkLen ≤ 0 then .err .kdfParams
+        else if c.kdf = ascii "scrypt" then
           match ensureInt (lookup c.kdfparams (ascii "n")) with
-          | none => .panic
+          | none => .err .kdfParams
           | some n =>
             match ensureInt (lookup c.kdfparams (ascii "r")) with
-            | none => .panic
+            | none => .err .kdfParams
             | some r =>
               match ensureInt (lookup c.kdfparams (ascii "p")) with
-              | none => .panic
-              | some p => kdfRes (P.kdf (.scrypt auth salt n r p dkLen))
+              | none => .err .kdfParams
+              | some p =>
+                if r ≤ 0 ∨ p ≤ 0 then .err .kdfParams
+                else kdfRes (P.kdf (.scrypt auth salt n r p dkLen))
         else if c.kdf = ascii "pbkdf2" then
           match ensureInt (lookup c.kdfparams (ascii "c")) with
-          | none => .panic
+          | none => .err .kdfParams
           | some cc =>
             match asString (lookup c.kdfparams (ascii "prf")) with
-            | none => .panic
+            | none => .err .kdfParams
             | some prf =>
               if prf ≠ ascii "hmac-sha256" then .err .prf
               else kdfRes (P.kdf (.pbkdf2 auth salt cc dkLen))
@@ -227,7 +235,7 @@ def decryptKeyV3 (P : Prims) (f : KeyFile) (auth : Bytes) : Res Bytes :=
     | .err e => .err e
     | .panic => .panic
     | .ok (buf, iv, ct) =>
-      if iv.length ≠ 16 then .panic                            -- cipher.NewCTR: IV length must equal block size
+      if iv.length ≠ 16 then .err .ivLength                    -- e55659c (was: cipher.NewCTR panics)
       else .ok (xorStream (P.ks (encKey buf) iv) 0 ct)
 
 /-- decryptKeyV1 (AES-128-CBC under Keccak(derivedKey[:16])[:16], PKCS#7). -/
@@ -236,8 +244,7 @@ def decryptKeyV1 (P : Prims) (f : KeyFile) (auth : Bytes) : Res Bytes :=
   | .err e => .err e
   | .panic => .panic
   | .ok (buf, iv, ct) =>
-    if iv.length ≠ 16 then .panic                              -- cipher.NewCBCDecrypter
-    else if ct.length % 16 ≠ 0 then .panic                     -- CryptBlocks: input not full blocks
+    if iv.length ≠ 16 ∨ ct.length % 16 ≠ 0 then .err .ivLength   -- e55659c (was: NewCBCDecrypter / CryptBlocks panic)
     else
       match pkcs7Unpad (P.cbc ((P.H (encKey buf)).take 16) iv ct) with
       | none => .err .decrypt
@@ -253,12 +260,28 @@ def decryptBytes (P : Prims) (f : KeyFile) (auth : Bytes) : Res Bytes :=
   else
     if !f.v3ok then .err .json else decryptKeyV3 P f auth
 
-/-- keystore.DecryptKey. -/
+/-- strings.TrimPrefix. -/
+def trimPrefix (p s : Bytes) : Bytes := if p.isPrefixOf s then s.drop p.length else s
+
+/-- the address bytes the file claims: TrimPrefix "0x" then "0X", hex-decoded (`none` = not hex). -/
+def fileAddr (address : Bytes) : Option Bytes := hexDecode (trimPrefix (ascii "0X") (trimPrefix (ascii "0x") address))
+
+/-- keystore.DecryptKey (a73be14: when the file names an address, the decrypted key must have it). -/
 def decryptKey (P : Prims) (f : KeyFile) (auth : Bytes) : Res Key :=
   match decryptBytes P f auth with
   | .err e => .err e
   | .panic => .panic
-  | .ok pt => let d := scalarOfBytes pt; .ok ⟨d, P.addrOf d⟩
+  | .ok pt =>
+    let d := scalarOfBytes pt
+    if f.address ≠ [] ∧ fileAddr f.address ≠ some (P.addrOf d) then .err .corrupted
+    else .ok ⟨d, P.addrOf d⟩
+
+/-- KeyStore.Import down to the address of the account it stores: bare DecryptKey, then importKey under key.Address. -/
+def importAccount (P : Prims) (f : KeyFile) (auth : Bytes) : Res Bytes :=
+  match decryptKey P f auth with
+  | .ok k => .ok k.addr
+  | .err e => .err e
+  | .panic => .panic
 
 /-- keyStorePassphrase.GetKey (after the file was read): decrypt, then compare with the account's address. -/
 def getKey (P : Prims) (addr : Bytes) (f : KeyFile) (auth : Bytes) : Res Key :=
